@@ -67,6 +67,13 @@ def box_aabb(box2origin, size):
     return axis_aligned_bounding_box(vertices)
 
 
+def _orthogonal_extent(axis):
+    """Computes sqrt(1 - axis ** 2) of a unit vector without cancellation."""
+    squares = axis * axis
+    return np.sqrt(np.array([squares[1] + squares[2], squares[0] + squares[2],
+                             squares[0] + squares[1]]))
+
+
 def cylinder_aabb(cylinder2origin, radius, length):
     """Compute axis-aligned bounding box of cylinder.
 
@@ -92,7 +99,7 @@ def cylinder_aabb(cylinder2origin, radius, length):
     # AABB of a cylinder is the same as the AABB of its caps,
     # see https://iquilezles.org/articles/diskbbox/
     axis = cylinder2origin[:3, 2]
-    extent = 0.5 * length * np.abs(axis) + radius * np.sqrt(1.0 - axis * axis)
+    extent = 0.5 * length * np.abs(axis) + radius * _orthogonal_extent(axis)
     return cylinder2origin[:3, 3] - extent, cylinder2origin[:3, 3] + extent
 
 
@@ -170,7 +177,7 @@ def disk_aabb(center, radius, normal):
     maxs : array, shape (3,)
         Maximum coordinates.
     """
-    e = radius * np.sqrt(1.0 - normal * normal)
+    e = radius * _orthogonal_extent(normal)
     return center - e, center + e
 
 
@@ -199,7 +206,7 @@ def cone_aabb(cone2origin, radius, height):
     pa = cone2origin[:3, 3]
     pb = cone2origin[:3, 3] + height * cone2origin[:3, 2]
     axis = cone2origin[:3, 2]
-    e = np.sqrt(np.maximum(0.0, 1.0 - axis * axis))
+    e = _orthogonal_extent(axis)
     return np.minimum(pa - e * radius, pb), np.maximum(pa + e * radius, pb)
 
 
